@@ -739,6 +739,94 @@ theorem c13_setup_replaces_stale_rules (h : Host) (p : Pod) (x : Rule) :
   unfold setupPod
   exact mem_ensureAll p.hostRules h.rules x (hostRules_keys p)
 
+/-! ### the daemon's periodic rule sync -/
+
+theorem ensureRule_noop (rules : List Rule) (r : Rule) (hm : r ∈ rules) (hu : ∀ x ∈ rules, ruleKey x = ruleKey r → x = r) :
+    ensureRule rules r = rules := by
+  unfold ensureRule
+  simp only [hm, if_true, List.append_nil]
+  apply List.filter_eq_self.mpr
+  intro x hx
+  by_cases hk : ruleKey x = ruleKey r
+  · simp [hu x hx hk]
+  · simp [hk]
+
+theorem ensureRules_noop (rs : List Rule) (rules : List Rule)
+    (h : ∀ r ∈ rs, r ∈ rules ∧ ∀ x ∈ rules, ruleKey x = ruleKey r → x = r) : rs.foldl ensureRule rules = rules := by
+  induction rs with
+  | nil => rfl
+  | cons r rs ih =>
+    simp only [List.foldl_cons]
+    rw [ensureRule_noop rules r (h r (by simp)).1 (h r (by simp)).2]
+    exact ih fun q hq => h q (by simp [hq])
+
+theorem ensureRoutes_noop (rts : List Route) (routes : List Route) (h : ∀ rt ∈ rts, rt ∈ routes) :
+    rts.foldl ensureRoute routes = routes := by
+  induction rts with
+  | nil => rfl
+  | cons rt rts ih =>
+    simp only [List.foldl_cons]
+    have : ensureRoute routes rt = routes := by unfold ensureRoute; simp [h rt (by simp)]
+    rw [this]
+    exact ih fun q hq => h q (by simp [hq])
+
+/-- what "this interface of the pod is set up on the host" means: its rules are there and nothing else has their keys, its
+    routes are there -/
+def SetUp (h : Host) (p : Pod) : Prop :=
+  (∀ r ∈ p.hostRules, r ∈ h.rules ∧ ∀ x ∈ h.rules, ruleKey x = ruleKey r → x = r) ∧ (∀ rt ∈ p.eniRoutes ++ p.vethRoutes, rt ∈ h.routes)
+
+/-- **The periodic rule sync changes nothing on a host where every interface of the pod is set up**: in particular each
+    address of a multi-interface pod stays routed to the host veth of the interface that owns it.  (The sync asserts each
+    interface with that interface's own host veth; a sync that used one veth for all of them would not be `ruleSync`.) -/
+theorem c13_rule_sync_noop (h : Host) (ifaces : List Pod) (hs : ∀ p ∈ ifaces, SetUp h p) : ruleSync h ifaces = h := by
+  unfold ruleSync
+  induction ifaces with
+  | nil => rfl
+  | cons p ps ih =>
+    simp only [List.foldl_cons]
+    have hp := hs p (by simp)
+    have : setupPod h p = h := by
+      unfold setupPod
+      rw [ensureRules_noop p.hostRules h.rules hp.1, ensureRoutes_noop _ h.routes hp.2]
+    rw [this]
+    exact ih fun q hq => hs q (by simp [hq])
+
+/-- non-vacuity: two interfaces of one pod on one ENI (one subnet, one gateway), set up one after the other - the sync over both changes nothing, and a
+    sync that asserted the second interface's address on the first interface's host veth would (the route moves) -/
+example :
+    let c0 : Cfg := { ip4 := some (0x0a00000a, 24), ip6 := none, gw4 := some 0x0a0000fd, gw6 := none, host4 := none, host6 := none,
+                      eniGw4 := none, eniGw6 := none, stripVlan := false, defaultRoute := true, multiNetwork := true, extra := [], ifName := "eth0" }
+    let c1 : Cfg := { c0 with ip4 := some (0x0a00000b, 24), defaultRoute := false, ifName := "eth1" }
+    let p0 : Pod := { cfg := c0, veth := 2, eni := 1 }
+    let p1 : Pod := { cfg := c1, veth := 3, eni := 1 }
+    let h := setupPod (setupPod { rules := [mainRule], routes := [] } p0) p1
+    (ruleSync h [p0, p1]).routes = h.routes ∧ (ruleSync h [p0, p1]).rules = h.rules ∧
+    (ruleSync h [p0, { p1 with veth := 2 }]).routes ≠ h.routes := by decide
+
+theorem eq_of_ruleKey (l : List Rule) (hpw : l.Pairwise (fun a b => ruleKey a ≠ ruleKey b)) (x r : Rule) (hx : x ∈ l) (hr : r ∈ l)
+    (hk : ruleKey x = ruleKey r) : x = r := by
+  induction l with
+  | nil => cases hx
+  | cons a l ih =>
+    have ⟨h1, h2⟩ := List.pairwise_cons.mp hpw
+    simp only [List.mem_cons] at hx hr
+    rcases hx with rfl | hx <;> rcases hr with rfl | hr
+    · rfl
+    · exact absurd hk (h1 r hr)
+    · exact absurd hk.symm (h1 x hx)
+    · exact ih h2 hx hr
+
+/-- setting an interface up establishes the rules part of `SetUp` for it, on any host (stale rules included) -/
+theorem c13_setup_rules_setUp (h : Host) (p : Pod) :
+    ∀ r ∈ p.hostRules, r ∈ (setupPod h p).rules ∧ ∀ x ∈ (setupPod h p).rules, ruleKey x = ruleKey r → x = r := by
+  intro r hr
+  constructor
+  · exact (c13_setup_replaces_stale_rules h p r).mpr (Or.inl hr)
+  · intro x hx hk
+    rcases (c13_setup_replaces_stale_rules h p x).mp hx with hx' | ⟨_, hne⟩
+    · exact eq_of_ruleKey p.hostRules (hostRules_keys p) x r hx' hr hk
+    · exact absurd hk (hne r hr)
+
 /-! ### teardown -/
 
 theorem prio_ne : toContainerPrio ≠ fromContainerPrio ∧ mainRule.prio ≠ toContainerPrio ∧ mainRule.prio ≠ fromContainerPrio := by
